@@ -60,6 +60,11 @@ Proof.
   induction i as [|x i IH]; cbn; [reflexivity|]. destruct (p x); [|reflexivity].
   destruct (span p i). cbn in *. now rewrite <- IH.
 Qed.
+Lemma span_fst_all (f : N -> bool) i : Forall (fun c => f c = true) (fst (span f i)).
+Proof.
+  induction i as [|c i IH]; cbn [span]; [constructor|]. destruct (f c) eqn:E; [|constructor].
+  destruct (span f i). cbn [fst] in *. now constructor.
+Qed.
 Lemma good_take_while1 f : good (take_while1 f).
 Proof.
   constructor.
